@@ -222,6 +222,10 @@ def _membership(dom, c):
         idx2 = sp.sympify(loaded[tab[0]][1])          # 2 * byte (table of 16-bit entries)
         byte = sp.expand(idx2 / 2)
         if byte not in loaded or loaded[byte][0] != '*ptr_':
+            inner = [x for x in sp.sympify(byte).free_symbols if x in loaded and loaded[x][0] == '*ptr_']
+            if inner:
+                # a function of a content byte (masked, shifted ...): other byte values are then classified like that one
+                return (sp.sympify(loaded[inner[0]][1]), nonzero, 'isspace-of', byte)
             raise Unsupported('the character class test is not applied to a byte of the content (%s)' % (byte,))
         return (sp.sympify(loaded[byte][1]), nonzero, 'isspace', None)
     return None
@@ -244,6 +248,8 @@ def trim_steps(fn, name, dom, leaves, loop_leaves, off, rep):
             probs.append('an iteration continues after %d membership tests (%s)' % (len(tests), lf.pc))
             continue
         pos, _, kind, targs = tests[0]
+        if kind == 'isspace-of':
+            probs.append('the space class is tested on %s, not on the byte itself: other byte values are trimmed like the ones they are mapped to' % (targs,))
         if kind == 'memchr':
             sset, cnt = targs
             if not (isinstance(sset, Ptr) and sset.base == 'src1' and sp.expand(sset.off) == 0 and sp.sympify(cnt) == sp.Symbol('arg_n', integer=True, nonnegative=True)):
